@@ -3,6 +3,7 @@
 #![allow(unused_imports, unused_variables, dead_code, unused_mut, unused_parens, unused_braces, non_snake_case)]
 use vstd::prelude::*;
 use std::ops::{Index, IndexMut, Range};
+use std::collections::BTreeMap;
 use std::time::Instant;
 use vstd::std_specs::core::{IndexSpec, IndexSpecImpl};
 use vstd::std_specs::cmp::*;
